@@ -153,7 +153,14 @@ def case_strategy(depth):
 
         return st.one_of(st.just(sh), small, small).flatmap(lambda base: G.mutations_of(base).flatmap(lambda sib: cases(base, sib)))
 
-    return shapes.flatmap(lambda sh: st.one_of(conf(sh), conf(sh), conf(sh), near(sh), near(sh), text(sh), comp(sh), comp(sh), perm(sh), sibling(sh), sibling(sh)))
+    def dflt(sh):
+        """a declared default that is ``==`` the given value but of another type (1 / 1.0 / True, [1] / [1.0]) must not change
+        what the given value becomes: same accept/reject and same typed result as with a parser without that default"""
+        if G.has_union(sh) or "dc" in G.kinds_in(sh) or "cls" in G.kinds_in(sh):
+            return conf(sh)
+        return G.conforming(sh).map(lambda v: {"rel": "dflt", "shape": sh, "value": v})
+
+    return shapes.flatmap(lambda sh: st.one_of(conf(sh), conf(sh), conf(sh), near(sh), near(sh), text(sh), comp(sh), comp(sh), perm(sh), sibling(sh), sibling(sh), dflt(sh)))
 
 
 # ------------------------------------------------------------------------------------------------- the property
@@ -245,6 +252,40 @@ def run_case(ctx, case):
                             {"container": cshape, "value": cval, "elements_accepted": el_ok, "container_result": short(ra[1], 200)})
         rejected = rc[0] != "ok"
         deep = True
+    elif rel == "dflt":
+        from jsonargparse import ArgumentError, ArgumentParser
+
+        v = case["value"]
+        if v is None:
+            return
+        try:
+            default = G.expected(shape, v)
+        except Exception:  # noqa
+            return
+        for how, given in (("same", v), ("retyped", _retype(v))):
+            if how == "retyped" and not _differs_typed(given, v):
+                continue
+            base = parse_obj(ctx, shape, given)
+            p = ArgumentParser(exit_on_error=False)
+            try:
+                p.add_argument("--x", type=G.to_type(shape), default=copy.deepcopy(default))
+            except Exception:  # noqa
+                return
+            try:
+                r = ("ok", p.parse_object({"x": copy.deepcopy(given)}).x)
+            except ArgumentError as ex:
+                r = ("rej", short(str(ex), 200))
+            except Exception as ex:  # noqa
+                r = ("rej", "escape " + fmt_exc(ex))
+            ctx.cls(f"dflt:{how}:{r[0]}")
+            if r[0] == "ok" and r[1] is not None and not G.conforms(shape, r[1]):
+                ctx.finding(f"C02/nonconforming-result/object-with-equal-default/{first_bad_kind(shape, r[1])}", {"shape": shape, "default": repr(default), "given": given, "result": repr(r[1])})
+            elif r[0] != base[0]:
+                ctx.finding(f"C02/declared-default-changes-acceptance/{'accepted-only-with-default' if r[0] == 'ok' else 'rejected-only-with-default'}",
+                            {"shape": shape, "default": repr(default), "given": given})
+            elif r[0] == "ok" and G.diff(r[1], base[1], limit=1):
+                ctx.finding("C02/declared-default-changes-the-converted-value", {"shape": shape, "default": repr(default), "given": given, "with_default": repr(r[1]), "without": repr(base[1])})
+            rejected = rejected or r[0] != "ok"
     elif rel == "perm":
         members = shape[1:]
         v = case["value"]
@@ -282,6 +323,25 @@ def run_case(ctx, case):
     for k in kinds:
         ctx.cls("kind:" + k)
     ctx.sample()
+
+
+def _retype(v):
+    """the same value by ``==`` with other leaf types: int <-> integral float, 0/1 <-> bool"""
+    if isinstance(v, bool):
+        return int(v)
+    if isinstance(v, int):
+        return bool(v) if v in (0, 1) else float(v) if abs(v) < 2**53 else v
+    if isinstance(v, float):
+        return int(v) if v.is_integer() and abs(v) < 2**53 else v
+    if isinstance(v, list):
+        return [_retype(x) for x in v]
+    if isinstance(v, dict):
+        return {k: _retype(x) for k, x in v.items()}
+    return v
+
+
+def _differs_typed(a, b):
+    return bool(G.diff(a, b, limit=1))
 
 
 def _jsonable(v):
@@ -404,7 +464,7 @@ def health(tier, evaluations, nontrivial, classes):
     msgs = []
     if acc + rej and min(acc, rej) / (acc + rej) < 0.2:
         msgs.append(f"accept/reject mix too skewed: accepted={acc} rejected={rej}")
-    for r in ("conf", "near", "text", "comp", "perm"):
+    for r in ("conf", "near", "text", "comp", "perm", "dflt"):
         if classes.get("rel:" + r, 0) < 20:
             msgs.append(f"relation {r} nearly absent")
     return msgs
